@@ -11,7 +11,7 @@ from harness.c05 import make_kernel
 GHEADER = kreal.RHEADER.replace('Require Import XV.Real.Kernels.', 'Require Import XV.Real.Kernels XV.Real.Grads XV.Real.GradsP XV.Real.GradOps XV.Real.GradAuto.') + '''
 (* the model of what jacrev + the generic wrapper return for the product / Lpq / sum-power kernels (Real/GradAuto.v), on concrete numerals *)
 Ltac auto_unfold :=
-  cbv [grad_product grad_lpq grad_sum_power gauto dlincomb dprod_m dlpq_m dprod dlpq dsp wsum basis seq map transform xmat
+  cbv [grad_product grad_lpq grad_sum_power gauto dlincomb dprod_m dlpq_m dprod dlpq dsp dsp_m spcoord_m dspcoord_m dspcoord wsum basis seq map transform xmat
        vmulR vsubR vaddR vscaleR vdotR nth length repeat sum_abs_pow normp rsumR fold_right pred].
 Ltac sgn_simpl := repeat match goal with |- context [sgn ?a] => first [rewrite (sgn_pos a) by interval | rewrite (sgn_neg a) by interval] end.
 Ltac mask_simpl := repeat match goal with |- context [masked ?e ?D ?v] => rewrite (masked_open e D v) by interval end.
@@ -31,6 +31,72 @@ def mp_grad(kn, xs, cs, z, mat, par, dcoord):
         zz[dcoord] = zz[dcoord] + t
         return mp.fsum(c * orc.kernel_closed_form(kn, x, zz, mat, **par) for x, c in zip(xs, cs))
     return mp.diff(f, 0, h=mp.mpf(10) ** -20)
+
+
+def coincidence_regime(ck, xr, kinds):
+    """"where z coincides with a center, that center's own term contributes zero (up to rounding) and the result stays finite": EVERY kernel x exponents below, at and
+    above 1 x (a) the training points themselves as queries, (b) a query that ties with a center in ONE coordinate (integer-valued columns), (c) a diagonal transform with
+    an exact zero weight.  Oracle: finite output everywhere; (a) the gradient at x_j with all centers equals the gradient at x_j with center j removed (own term = 0);
+    (c) the derivative along the zero-weight coordinate is exactly 0 and the other coordinates equal the gradient of the same configuration without the zero (weight 1e-300
+    is indistinguishable from 0 for the others).  Index arithmetic picks the combination; the seed only the numbers.  (Round 14: the sum-power kernel returned nan here for q < 1.)"""
+    rng = np.random.default_rng(ck.seed + 40404)
+    T = lambda a: torch.tensor(a, dtype=torch.float64)
+    qs = [0.5, 0.7, 1.0, 1.4]
+    for i in range(ck.n(40, 160)):
+        kn = kinds[i % 5]; q = qs[(i // 5) % 4]; mode = ['self', 'tie', 'zero-weight'][(i // 20 + i) % 3]
+        p = 2.0
+        if kn == 'lpq':
+            p = [2.0, 1.5, 1.0][(i // 5) % 3]; q = min(q, p)
+        d = int(rng.integers(2, 4)); nx = int(rng.integers(3, 6)); f = 1 + i % 3
+        L = float(rng.choice([0.7, 2.0, 10.0])); cmix = [0.0, 0.3][i % 2]; power = 1 + (i // 2) % 3
+        X = np.round(rng.standard_normal((nx, d)) * 2) / 2 if mode == 'tie' else rng.standard_normal((nx, d))
+        for a_ in range(nx):                    # distinct rows
+            X[a_, 0] += 0.01 * a_
+        coefs = rng.standard_normal((f, nx))
+        mat = None
+        if mode == 'self':
+            Z = X.copy()
+        elif mode == 'tie':
+            Z = rng.standard_normal((2, d)); Z[0, 1] = X[1, 1]; Z[1, d - 1] = X[0, d - 1]
+        else:
+            Z = rng.standard_normal((2, d)); mat = np.abs(rng.standard_normal(d)) + 0.3; zc = i % d; mat[zc] = 0.0
+        kobj = make_kernel(xr, kn, L, q, p, cmix, power)
+        desc = dict(regime='coincidence', i=i, kernel=kn, q=q, p=p, mode=mode, d=d, nx=nx, f=f, L=L, const_mix=cmix, power=power, seed=ck.seed)
+        try:
+            with xr.quiet():
+                G = kobj.get_function_grads(T(X), T(Z), T(coefs), None if mat is None else T(mat)).double().numpy()
+        except Exception as e:
+            ck.violation(f'get_function_grads raised {e!r} on {desc}', dict(desc, X=X.tolist(), Z=Z.tolist(), error=repr(e)), key=json.dumps(dict(site='coincidence-raise', kernel=kn)))
+            continue
+        ck.case(dict(desc, X=X.tolist(), Z=Z.tolist()), nontrivial=True, sample=(i == 14))
+        ck.count(f'coincidence regime: {mode}'); ck.count(f'coincidence regime: q={q}')
+        if not np.all(np.isfinite(G)):
+            bad = np.argwhere(~np.isfinite(G))[0].tolist()
+            ck.violation(f'{kn} (q={q}): gradient entry (output {bad[0]}, query {bad[1]}, coordinate {bad[2]}) is not finite ({mode}: '
+                         + {'self': 'the query is a training point', 'tie': 'the query ties with a center in one coordinate', 'zero-weight': 'a diagonal weight is exactly 0'}[mode]
+                         + f') on {desc}', dict(desc, X=X.tolist(), Z=Z.tolist(), coefs=coefs.tolist(), mat=None if mat is None else mat.tolist()),
+                         key=json.dumps(dict(site='coincidence-nonfinite', kernel=kn, mode=mode)))
+            continue
+        scale = float(np.abs(coefs).sum()) / L + 1.0
+        if mode == 'self' and (kn != 'sum_power' or True):
+            # own term contributes zero: dropping center j (and its coefficients) leaves the gradient at x_j unchanged.  For the sum-power kernel the own term is the
+            # constant ((1-c)*1 + c)^power whose derivative is 0 as well.
+            for j in range(nx):
+                keep = [a_ for a_ in range(nx) if a_ != j]
+                with xr.quiet():
+                    Gj = kobj.get_function_grads(T(X[keep]), T(X[j:j + 1]), T(coefs[:, keep]), None).double().numpy()
+                dev = float(np.max(np.abs(Gj[:, 0, :] - G[:, j, :])))
+                if q >= 1.0 or kn in ('l2', 'l2_light', 'lpq'):
+                    tolc = 1e-7 * scale if kn != 'l2_light' else 2e-4 * scale
+                    if dev > tolc:
+                        ck.violation(f'{kn} (q={q}): at the training point {j} the gradient with all centers differs by {dev:.3g} from the gradient with center {j} removed '
+                                     f'(its own term must contribute zero) on {desc}', dict(desc, X=X.tolist(), coefs=coefs.tolist(), j=j, dev=dev),
+                                     key=json.dumps(dict(site='coincidence-own-term', kernel=kn)))
+                        break
+        if mode == 'zero-weight':
+            if float(np.max(np.abs(G[:, :, zc]))) != 0.0:
+                ck.violation(f'{kn} (q={q}): the derivative along coordinate {zc}, whose diagonal weight is exactly 0, is {float(np.max(np.abs(G[:, :, zc])))} (the predictor does '
+                             f'not depend on it) on {desc}', dict(desc, X=X.tolist(), Z=Z.tolist(), mat=mat.tolist()), key=json.dumps(dict(site='coincidence-zero-weight', kernel=kn)))
 
 
 def run(ck):
@@ -150,12 +216,13 @@ def run(ck):
             elif kn == 'lpq':
                 term = f'grad_lpq {tm} {coq_R(L)} {coq_R(p)} {coq_R(q)} {coq_R(kobj.eps)} {kreal.rmat(X)} {kreal.rvec(coefs[l])} {kreal.rvec(Z[j])}'
             else:
-                term = f'grad_sum_power {tm} {coq_R(L)} {coq_R(q)} {coq_R(cmix)} {int(power)}%nat {kreal.rmat(X)} {kreal.rvec(coefs[l])} {kreal.rvec(Z[j])}'
+                term = f'grad_sum_power {tm} {coq_R(L)} {coq_R(q)} {coq_R(cmix)} {coq_R(kobj.eps)} {int(power)}%nat {kreal.rmat(X)} {kreal.rvec(coefs[l])} {kreal.rvec(Z[j])}'
             tol = 1e-8 * (float(np.abs(coefs[l]).sum()) / L + 1)
             lid = len(lemmas)
             lemmas.append((lid, f'Lemma g_{lid} : Rabs (nth {dc} ({term}) 0 - {coq_R(float(G[l, j, dc]))}) <= {coq_R(tol)}.\nProof. auto_simpl. interval with (i_prec 60). Qed.'))
             lmeta[lid] = dict(desc, l=l, j=j, dc=dc, model='GradAuto')
             ck.count('autodiff entry certified against the Coq model')
+    coincidence_regime(ck, xr, kinds)
     res = ck.run_lemma_files('grad', GHEADER, lemmas, shard=3, timeout=900)
     bad = [lmeta[k] for k, v in res.items() if not v]
     ck.obligation(f'correspondence: {len(lemmas)} gradient entries (closed-form L2 kernels: op-sequence model; product / Lpq / sum-power: model of what jacrev returns) within tolerance of the Coq models (interval-certified)',
